@@ -608,6 +608,7 @@ def rule_source_io(rep: Report, rid="C16.src") -> None:
                 ok = True
             else:
                 segs = nf.flatten_segs(I2, nf.value_segs(I2, rv2, tree2), tree2) if rv2[0] in ("ref", "cond") else []
+                segs = [sg for sg in segs if not (sg[0] == "op")]
                 ys = [n for n, c in nf.iter_nodes(tree2) if n[0] == "yield"]
                 if len(segs) == 1 and segs[0][0] == "loop":
                     lid = segs[0][1]
